@@ -54,3 +54,25 @@ package cmd
 //@   loop 1:
 //@     invariant no_refusal_is_pending: renewRefused == 0
 //@     invariant a_leader_whose_renewal_failed_does_not_go_on_leading: renewFailed == 0
+
+// ---- the stale-checkpoint collector: which replication ids count as live (C17) ----------------
+// A position is filed under ONE of the two ids a source reports (master_replid / master_replid2:
+// after a failover it stays under the previous id until the syncer of that source restarts and
+// re-keys it). Both ids of every source node therefore protect their records from the collector.
+//   lastId1 / lastId2  the ids the source node asked last reported
+//@ func redis.GetRunIds(cli) (id1, id2, err)
+//@   trusted abstract source (INFO replication)
+//@ func SyncerCmd.gcStaleCheckpoint
+//@   arith int
+//@   properties C17
+//@   ghost var lastId1 string = ""
+//@   ghost var lastId2 string = ""
+//@   ghost var asked mathint = 0
+//@   modifies heap, lastId1, lastId2, asked, collectable, phase, curDb
+//@   set lastId1 = result0 after call GetRunIds
+//@   set lastId2 = result1 after call GetRunIds
+//@   set asked = ite(result2 == nil, 1, 0) after call GetRunIds
+//@   ghost var collectable mathint = 0
+//@   set collectable = ite(!exist && result0 == result1, 1, 0) after call DelStaleCheckpoint
+//@   loop 1:
+//@     invariant both_ids_a_source_reports_count_as_live: asked == 1 ==> haskey(runIdMap, lastId1) && haskey(runIdMap, lastId2)
